@@ -62,19 +62,25 @@ def main():
     import threading, faulthandler
 
     def _hung():
-        limit = 900 if args.tier == 'quick' else 4 * 3600
+        limit = int(os.environ.get('VERIF_HANG_LIMIT') or (900 if args.tier == 'quick' else 4 * 3600))
         payload = dict(property=prop, kind='history', seed=common.SEED,
                        theorem_or_case=f'correspondence run of {prop} ({args.tier} tier)',
-                       summary=f'the check did not finish within {limit} s: the implementation (or a case evaluation) hangs; the property is no longer shown to hold')
-        path = common.write_replay(prop, payload)
+                       summary=f'the check did not finish within {limit} s in two consecutive attempts: the implementation (or a case evaluation) hangs; the property is no longer shown to hold')
         try:
             faulthandler.dump_traceback(file=sys.stderr)
         except Exception:
             pass
+        if not os.environ.get('VERIF_SECOND_ATTEMPT'):
+            # a run that does not come back is repeated once by ./check (exit status 75): what is reported is a run that hangs AGAIN -
+            # a deadlock that a change of the library introduces shows both times, a one-off stall of the machine does not
+            print(f'{prop}: the run did not finish within {limit} s - repeating it once', file=sys.stderr, flush=True)
+            _kill_children()
+            os._exit(75)
+        path = common.write_replay(prop, payload)
         print(f'VIOLATION property={prop} replay={path} no-failing-input-found', flush=True)
         _kill_children()
         os._exit(1)
-    _timer = threading.Timer(900 if args.tier == 'quick' else 4 * 3600, _hung)
+    _timer = threading.Timer(int(os.environ.get('VERIF_HANG_LIMIT') or (900 if args.tier == 'quick' else 4 * 3600)), _hung)
     _timer.daemon = True
     _timer.start()
 
